@@ -10,7 +10,9 @@ Tie of `Model/Grammar.lean` (the theorems of Properties/C01.lean are about it) t
   canonical derivations, (2) one malformation from the fixed list applied to such a string,
   (3) nasty / byte-mutated strings, (4) every string of length <= 3 (thorough: <= 4) over a
   19-character alphabet that covers every token class; public table and a private table with altered
-  isotope / ion lists (the other table's grammar is used in between); compared: accepted / rejected, nested structure with exact counts, density tag.
+  isotope / ion lists (the other table's grammar is used in between); compared: accepted / rejected,
+  nested structure with exact counts, density tag; (5) mixture strings (wt%, vol%, layers, masses):
+  the term read by the extended model, evaluated with the real mixing functions, against formula(str).
 
 Direct oracle (no pyparsing, no model): the documented reading of the derivation that produced the
 string (Fractions: a count multiplies its group, repeated atoms add; charge; density) and
@@ -23,6 +25,7 @@ from fractions import Fraction
 
 from ..common import InfraError, Run, close, import_repo
 from .. import grammar_lib as G
+from .. import grammar_mix as M
 
 RULE = ("strings over the formula alphabet; a case is non-trivial when its derivation has a nested "
         "group, a separator, a leading group count, blanks, a density tag, an isotope or ion tag or a "
@@ -320,7 +323,9 @@ class Checker:
                     agree = expected_density(p[2], m[2], keys, self.tbl)[0]
             elif m[0] == "OK" or p[0] == "OK":
                 if m[0] == "FAIL" and p[0] == "OK" and G.maybe_mixture(s):
+                    # read by a mixture alternative of the top-level grammar: the extended model decides
                     self.mixture_escapes += 1
+                    M.check_mixtures(run, self.tname, self.ref, self.tbl, self.prefix, [s], strict=False)
                 elif m[0] == "OK" and m[2] is not None and m[2][0] == "n" and p[1] == "ZeroDivisionError" \
                         and total_count(m[1]) == 0:
                     # '@…n' on a formula whose counts are all zero: natural_mass_ratio divides by the
@@ -463,6 +468,20 @@ def run_chunk(run: Run, tname, n_acc, n_mal, n_nasty, maxdepth, sweep):
     run.dist["%s:mixture-escape(skipped)" % tname] = ck.mixture_escapes
 
 
+def run_mixture_chunk(run: Run, tname, n):
+    """the mixture alternatives of the top-level grammar (Model/GrammarMix.lean), syntax level"""
+    ref, tbl, prefix = tables(tname)
+    if not M.units_match():
+        run.notes.append("mixture stream not run: the unit lists of formulas.py differ from Model/GrammarMix.lean")
+        return
+    docs = ["10wt% Fe // 15% Co // Ni", "10vol% Fe // Ni", "5g NaCl // 50mL H2O@1", "1 um Si // 5 nm Cr // 10 nm Au",
+            "20vol% (10 wt% NaCl@2.16 // H2O@1) // D2O@1n", "2L H2O@1 // 1g NaCl",
+            "50 g (49 mL H2O@1 // 1 g NaCl) // 20 mL D2O@1n", "50 mL (45 mL H2O@1 // 5 g NaCl)@1.0707 // 20 mL D2O@1n",
+            "g Fe", "%wt Fe // Ni", "110wt% Fe // Ni", "10wt% Fe // 15% Co"]
+    strings = docs + [M.gen_mixture_string(run.rng, ref) for _ in range(n)]
+    M.check_mixtures(run, tname, ref, tbl, prefix, strings, strict=False)
+
+
 SMALL_ALPHABET = "HeO20.()[]{}+-@ n1D"
 
 
@@ -506,18 +525,21 @@ def run(run: Run) -> int:
         tasks = [(run_chunk, ("public", 550, 225, 375, 4, "sample" if i == 0 else None)) for i in range(4)]
         tasks += [(run_chunk, ("private", 275, 110, 190, 4, "sample" if i == 0 else None)) for i in range(2)]
         tasks += [(run_small_scope, ("public", n, 0, 1)) for n in (1, 2, 3)]
+        tasks += [(run_mixture_chunk, ("public", 300)), (run_mixture_chunk, ("private", 150))]
     else:
         tasks = [(run_chunk, ("public", 5000, 2000, 4000, 4 + i % 4, "full" if i == 0 else None)) for i in range(60)]
         tasks += [(run_chunk, ("private", 4000, 1600, 3000, 4 + i % 3, "full" if i == 0 else None)) for i in range(16)]
         tasks += [(run_small_scope, ("public", n, 0, 1)) for n in (1, 2, 3)]
         tasks += [(run_small_scope, ("public", 4, i, 8)) for i in range(8)]
+        tasks += [(run_mixture_chunk, ("public", 4000)) for i in range(6)] + [(run_mixture_chunk, ("private", 2000)) for i in range(2)]
     G.run_chunks(run, tasks)
     run.exhaustive = False
     return run.finish(RULE, assumptions=[
         "pyparsing's combinator semantics are modelled (Model/Grammar.lean), not verified",
         "counts with more than 15 significant digits are not generated (float('1.0000000000000000001') == 1 "
         "flattens a group the exact model keeps)",
-        "the mixture alternatives of the top-level grammar (wt%, vol%, //, units) are outside this model (C11)",
+        "the mixture alternatives of the top-level grammar (wt%, vol%, //, units) are modelled at the syntax level only "
+        "(Model/GrammarMix.lean, no theorems): the term read is evaluated with the real mixing functions (C11 owns their semantics)",
         "both-reject cases are not compared by exception class",
     ])
 
